@@ -4,6 +4,7 @@ from __future__ import annotations
 
 import multiprocessing as mp
 import os
+import re
 import shutil
 import tempfile
 import time
@@ -22,6 +23,22 @@ def group_phases(phases: list[dict]) -> list[list[dict]]:
         else:
             groups[-1].append(ph)
     return groups
+
+
+_DUP = re.compile(r"^Step \((.*)\) is defined by both step \((.*)\) and step \((.*)\)\.")
+
+
+def duplicate_definitions(events) -> list[list[str]]:
+    """[step, definer, definer] of every rejected duplicate step definition (in the last phase)."""
+    res = []
+    for e in events:
+        if e["ev"] == "begin_phase":
+            res = []
+        if e["ev"] == "step_exc" and e.get("exc") == "GraphError":
+            m = _DUP.match(e.get("msg", ""))
+            if m:
+                res.append(["step:" + m.group(1), "step:" + m.group(2), "step:" + m.group(3)])
+    return sorted(res)
 
 
 def run_history(project: dict, phases: list[dict], *, world: World | None = None, keep_world=False,
@@ -70,6 +87,7 @@ def run_history(project: dict, phases: list[dict], *, world: World | None = None
                     "errors": res.errors,
                     "nphases": len(group),
                     "watch_points": res.watch_points,
+                    "dups": duplicate_definitions(res.trace),
                 }
             )
             if res.exc or res.hang:
